@@ -259,6 +259,11 @@ fn log_op(ctx: &mut Ctx, sc: &dyn ScopeOps, optext: &str, outcome: &str) -> Dump
         ctx.blocks.len(),
         ctx.checksum()
     );
+    // ---- C12: a request creates at most one chunk, and the chunk created for it serves it
+    let grants = resps.matches(" G ").count();
+    if grants > 1 && !optext.starts_with("try_with") {
+        ctx.oracle("C12", format!("`{optext}` obtained {grants} blocks from the base allocator: the chunk created for the request did not fit it"));
+    }
     state_oracles(ctx, sc, &d, optext, !reqs.is_empty() || !resps.is_empty());
     // flush per operation: if the real crate aborts the process, the history up to that point is on stdout
     print!("{}", ctx.out);
